@@ -79,6 +79,47 @@ func boundsOf(w *c20lib.Workload, cfg c20lib.Config) c20Bounds {
 
 // ---- (a) decision table ------------------------------------------------------
 
+// c20Serve runs the handler on one request and waits for the answer with a time bound: a
+// handler that never answers (a leaked semaphore slot, a lock held for ever) is a violation,
+// not a hung check.  After the first hang further requests are not sent.
+var (
+	c20res   *Result
+	c20hung  bool
+	c20count int
+)
+
+func c20Serve(req *http.Request, what interface{}) *httptest.ResponseRecorder {
+	c20count++
+	if c20hung {
+		rec := httptest.NewRecorder()
+		rec.WriteHeader(599)
+		return rec
+	}
+	rec := httptest.NewRecorder()
+	done := make(chan struct{})
+	go func() {
+		defer close(done)
+		defer func() {
+			if p := recover(); p != nil && c20res != nil {
+				c20res.Violation(Finding{Stream: "web", What: fmt.Sprintf("the handler panicked: %v", p), Op: what})
+			}
+		}()
+		webstack.SnapshotHandler(rec, req)
+	}()
+	select {
+	case <-done:
+		return rec
+	case <-time.After(30 * time.Second):
+		c20hung = true
+		if c20res != nil {
+			c20res.Violation(Finding{Stream: "web hang", What: fmt.Sprintf("the handler did not answer request number %d of this process (%s %s) within 30 s; the requests before it were all answered", c20count, req.Method, req.URL.String()), Op: what})
+		}
+		hung := httptest.NewRecorder()
+		hung.WriteHeader(599)
+		return hung
+	}
+}
+
 func c20Call(q c20lib.Req, method string, mutate func(*http.Request)) *httptest.ResponseRecorder {
 	target := "/"
 	if enc := q.Query(false); enc != "" && !q.InBody {
@@ -95,16 +136,16 @@ func c20Call(q c20lib.Req, method string, mutate func(*http.Request)) *httptest.
 	if mutate != nil {
 		mutate(req)
 	}
-	rec := httptest.NewRecorder()
-	webstack.SnapshotHandler(rec, req)
-	return rec
+	return c20Serve(req, q)
 }
 
 // c20Exact narrows the bounds to the exact number of goroutines when that
 // number was the same before and after the request (churn paused).
 func c20Exact(b c20Bounds, before int) c20Bounds {
 	if after := len(c20lib.HeaderIDs(c20lib.TakeDump())); after == before {
-		return c20Bounds{min: before, max: before, names: b.names}
+		// + the goroutine c20Serve runs the handler in (so that a handler that never answers
+		// can be told from a slow one); it exists only while the request is served
+		return c20Bounds{min: before + 1, max: before + 1, names: b.names}
 	}
 	return b
 }
@@ -189,8 +230,7 @@ func c20Grid(res *Result, pool *DrvPool, b c20Bounds) {
 				}
 				probe := mk()
 				eff = c20lib.Req{Method: "GET", Maxmem: probe.FormValue("maxmem"), Augment: probe.FormValue("augment"), Similarity: probe.FormValue("similarity")}
-				rec = httptest.NewRecorder()
-				webstack.SnapshotHandler(rec, mk())
+				rec = c20Serve(mk(), eff)
 				res.Eval("multipart|"+eff.Describe(), true)
 				res.Count(fmt.Sprintf("multipart:%d", rec.Code))
 				if w := c20lib.CheckResponse("GET", eff.Maxmem, eff.Augment, eff.Similarity, rec.Code, rec.Header().Get("Content-Type"), rec.Body.Bytes(), b.min, b.max, b.names); w != "" {
@@ -372,7 +412,7 @@ func c20Truncation(res *Result, pool *DrvPool, w *c20lib.Workload, b c20Bounds) 
 	need := len(c20lib.TakeDump())
 	reg := w.Registry()
 	total := c20Count()
-	b = c20Bounds{min: total, max: total, names: b.names}
+	b = c20Bounds{min: total + 1, max: total + 1, names: b.names}
 	info := map[string]interface{}{"dump_bytes": need, "goroutines_registered": len(reg), "goroutines": total}
 	if need <= 1<<20 {
 		info["skipped"] = "could not inflate the dump beyond 1 MiB"
@@ -500,6 +540,7 @@ func clipLong(s string, n int) string {
 
 func runC20(prop string, res *Result, pool *DrvPool, r *Rng) {
 	res.Rule = "(a) exhaustive grid method x maxmem x augment x similarity (6x12x10x8) on the real handler via httptest, plus the parameters carried by urlencoded and multipart bodies; (b) runtime.Stack(all) of the harness process while a churn workload runs (goroutines registered by id, parked in known states inside uniquely named functions: chan receive/send, select, Mutex, RWMutex, WaitGroup, Cond, sleep, IO wait on pipe and socket, raw syscall, locked to thread, 150-deep recursion, spinning, nil channel, empty select; plus goroutines created and exiting continuously), parsed by the library and (<= 300 KB) by the model; (c) 8 concurrent clients x random mostly-valid requests against an httptest.Server while the workload and library-level snapshots run; a dump inflated beyond 1 MiB for the buffer-growth path; strconv.Atoi against the model on boundary strings. Every case is non-trivial; distinct by request (+status and size for concurrent ones) or hash of the dump"
+	c20res, c20hung, c20count = res, false, 0
 	cfg := c20lib.Config{PerKind: 3, Churners: 4, ShortLive: 120, Seed: r.Next(), Leaky: true}
 	w := c20lib.Start(cfg)
 	time.Sleep(100 * time.Millisecond)
@@ -519,6 +560,12 @@ func runC20(prop string, res *Result, pool *DrvPool, r *Rng) {
 	w.Pause()
 	timed("grid", func() { c20Grid(res, pool, b) })
 	w.Resume()
+	if c20hung {
+		// the handler is stuck: nothing further can be learnt from this process
+		res.Extra["phase_seconds"] = phases
+		w.Stop()
+		return
+	}
 	timed("live", func() {
 		nLive := countN(res.Tier, 40, 700)
 		for i := 0; i < nLive; i++ {
